@@ -56,10 +56,35 @@ def valid(name, c, n, k, min_size):
     return all(c[i + 1] - c[i] >= min_size for i in range(k - 1))
 
 
-def check_one(rec, name, sc, X, n, k, min_size, oracle, cuts_rows, dtype=np.int64):
+def refit_same(make, kind, Xa, Xb):
+    """Fit a scorer on a container holding Xa, change the SAME container object in place so that it holds Xb, fit the SAME scorer again."""
+    import pandas as pd
+    n0, n1 = len(Xa), len(Xb)
+    sc = make()
+    if kind == "ndarray":
+        D = Xa.copy()
+        sc.fit(D)
+        D[...] = Xb
+    else:
+        D = pd.DataFrame(Xa.copy())
+        sc.fit(D)
+        if n1 > n0:
+            D.iloc[:, :] = Xb[:n0]
+            for i in range(n0, n1):
+                D.loc[i] = Xb[i]                      # setting with enlargement: same object, more rows
+        elif n1 < n0:
+            D.iloc[:n1, :] = Xb
+            D.drop(index=list(range(n1, n0)), inplace=True)
+        else:
+            D.iloc[:, :] = Xb
+    assert np.array_equal(np.asarray(D, dtype=float), Xb)
+    return sc.fit(D)
+
+
+def check_one(rec, name, sc, X, n, k, min_size, oracle, cuts_rows, dtype=np.int64, extra=None):
     cuts = np.array(cuts_rows, dtype=dtype)
     want_ok = all(valid(name, tuple(r), n, k, min_size) for r in cuts_rows)
-    inp = {"scorer": name, "X": X, "cuts": cuts}
+    inp = {"scorer": name, "X": X, "cuts": cuts, **(extra or {})}
     try:
         got = sc.evaluate(cuts)
         err = None
@@ -151,6 +176,28 @@ def run(tier="quick", seed=0, repo="/repo"):
                     rec.violation(f"{name}:malformed:{label}:{type(e).__name__}", f"{name}.evaluate raised {type(e).__name__} for a {label} cuts array",
                                   "C13.rejects", {"scorer": name, "X": X, "cuts": arr, "kind": label})
                 rec.case((name, n, label), True)
+    # a reused container: the scorer is fitted on a DataFrame / ndarray, the SAME container object is then grown, shrunk or refilled in place and
+    # the SAME scorer object is fitted on it again -- n and the scores are those of the data as fitted last (the whole box again)
+    import pandas as pd
+    for n0, n1, p in ((4, 6, 1), (6, 4, 1), (5, 5, 1), (5, 7, 2)):
+        Xa = np.round(rng.normal(size=(n0, p)) * 3, 1) + np.arange(n0).reshape(-1, 1) % 2
+        Xb = np.round(rng.normal(size=(n1, p)) * 3, 1) - np.arange(n1).reshape(-1, 1) % 3
+        for kind in (("frame",) if n0 != n1 else ("frame", "ndarray")):
+            for name, make, k, min_size, oracle in scorers(n1, p):
+                if k == 4 and p > 1:
+                    continue
+                if p > 1 and "GCov" not in name and "GaussianCovCost" not in name and name not in ("L2Cost", "CUSUM"):
+                    continue
+                name = f"{name}[refit-same-{kind}:{n0}->{n1},p={p}]"
+                try:
+                    sc = refit_same(make, kind, Xa, Xb)
+                except Exception as e:                                  # noqa: BLE001
+                    rec.violation(f"{name}:refit-raises:{type(e).__name__}", f"{name}: fitting the same scorer on the same container again raised "
+                                  f"{type(e).__name__}: {str(e)[:120]}", "C13.accepts", {"scorer": name, "X": Xb})
+                    continue
+                for c in itertools.product(range(-2, n1 + 3), repeat=k):
+                    nt = check_one(rec, name, sc, Xb, n1, k, min_size, oracle, [list(c)], extra={"refit_same": kind, "X_before": Xa})
+                    rec.case((name, n1, c), nt, None)
     # wrap-around specials on a longer series (n = 120): differences of narrow / unsigned / extreme integers must not wrap past the checks,
     # and a valid cut held in a narrow type is scored like its int64 twin
     n, p = 120, 1
@@ -178,7 +225,7 @@ def replay(inp, repo="/repo"):
     for name, make, k, min_size, oracle in scorers(n, p):
         if name == inp["scorer"].split("[")[0]:
             rec = Recorder()
-            sc = make().fit(X)
+            sc = refit_same(make, inp["refit_same"], np.array(inp["X_before"], dtype=float), X) if inp.get("refit_same") else make().fit(X)
             cuts = np.array(inp["cuts"])
             if inp.get("kind"):
                 try:
